@@ -21,23 +21,37 @@ RULE = ("one case = one parsed config (treelib's generators with line bodies swa
         "directly; IPv4Obj rows by calling IPv4Obj directly. The oracle judges a query only when the requested group participated "
         "in every line it has to read, or nothing matched. non-trivial = some query on a line with children whose family contains a "
         "match; distinct by request. Not generated: invalid patterns, '_' digit separators and non-ASCII digits, lone surrogates, "
-        "the groupdict= path, float/IPv4Obj defaults, ints beyond 2**32.")
+        "float/IPv4Obj defaults, ints beyond 2**32. "
+        "Two extra streams outside the property's quantifier (about 1 in 6 and 1 in 8 of the random cases): (gd) groupdict= requests "
+        "- 11 patterns with named groups, type dicts of 0-4 keys incl. a key that is no group name and type None, defaults that equal "
+        "a captured text, ops re_match_iter_typed / re_list_iter_typed, both recurse values (bucket gd-defect counts the cases where "
+        "the first child does not match but a later one does); (st) edit states - parse (auto_commit on/off), one ConfigList.insert "
+        "at a boundary-biased index, optional commit, then the five ops on the objects of the last commit.")
 LEVEL_TEXT = ("Theorems (Lean 4, all trees, all regex oracles, all IPv4 parsers): re_match_iter_typed returns result_type(group) of the "
               "first matching line of [self] + children (recurse=False) / [self] + all_children (recurse=True), and the default "
               "(converted iff not untyped_default) exactly when no line of that order matches; re_match_typed is the one-line variant "
               "with its unset-group -> default rule; re_list_iter_typed is the conversion mapped over the matching lines of the order, "
               "in order, failing at the first failing conversion; CiscoConfParse.re_match_iter_typed reads the root lines in config "
-              "order. The model is tied to the real methods by differential runs on every check.")
+              "order. For every parsed config (no hypothesis; uses C03's parse_forest/allChildren_spec) the recursive order is proved "
+              "to be the line followed by exactly its descendants (transitive closure of the parent link) in config order, each once "
+              "(order_is_descendants), and the four statements are restated for parsed configs in those terms (*_parsed). "
+              "The model is tied to the real methods by differential runs on every check. Outside the property's quantifier, modelled as "
+              "the code is and measured the same way: the groupdict= path (iterDict_recurse; the defective recurse=False branch and the "
+              "never-returning list variant as *_partial theorems) and the search_safe guard on Ccp.Edit states (stale_raises, "
+              "stale_states, root_on_committed; the unguarded config-level method as root_unguarded_partial).")
 LEVEL_NOTE = ("Trusted: Lean kernel; axioms propext/Classical.choice/Quot.sound only; the correspondence harness. Python's re and IPv4Obj "
               "are parameters of the model (universally quantified in the theorems, supplied per request by calling re / IPv4Obj "
-              "directly); float() is represented by its argument text plus a hand-written recogniser of accepted texts. That "
-              "all_children is 'all descendants in config order' is C03's theorem about the shared tree model; here the order is "
-              "proved to be self followed by the (ascending) all_children / children lists.")
+              "directly); float() is represented by its argument text plus a hand-written recogniser of accepted texts. The tree "
+              "facts come from C03's theorems about the shared tree model (Ccp.Tree.parse), whose agreement with the real parser is "
+              "measured by C01-C03. groupdict= requests and stale-config requests are outside the property (it speaks of 'the requested "
+              "capture group' of a parsed config): the oracle does not judge groupdict answers at all (correspondence only) and, for "
+              "edit states, judges committed states like any parsed config and checks only that the guard fires on stale ones. The "
+              "stale states exercised are parse + one ConfigList.insert (+ commit), through Ccp.Edit.step.")
 ASSUMPTIONS = [
     "re.search / Match.group are an oracle Str -> noMatch | noGroup | unset | val s, fixed per (regex, group)",
     "IPv4Obj(x) is an opaque function of x (C11's subject)",
     "int()/float() texts use ASCII digits, no '_' separators",
-    "the config is searched right after parsing (search_safe is True)",
+    "plain and groupdict requests search right after parsing; stale configs are reached by one ConfigList.insert only",
 ]
 TRUSTED = ["tree model Ccp.Tree.parse (validated by C01-C03's correspondence)", "float() acceptance recogniser (hand-written, measured)"]
 EXHAUSTIVE = {"quick": False, "thorough": False}
@@ -339,11 +353,17 @@ def cases(rng, tier):
                 continue
             for regex in FIXTURE_RX:
                 yield mk("ios", False, None, lines, regex, False, rng.choice([1, 1, 2]), rand_queries(rng, lines, 12), "fixture:" + name)
-    for _ in range(n):
+    for k in range(n):
         yield rand_case(rng)
+        if k % 6 == 0:
+            yield rand_gd_case(rng)
+        if k % 8 == 0:
+            yield rand_st_case(rng)
 
 
 def neighbours(case, rng):
+    if case.get("kind", "plain") != "plain":
+        return
     for _ in range(200):
         ls = list(case["lines"])
         qs = [dict(q) for q in case["queries"]]
@@ -376,7 +396,7 @@ def enc_val(v):
     raise AssertionError("unexpected value %r" % (v,))
 
 
-def impl(case):
+def _impl_plain(case):
     quiet_ccp()
     from ciscoconfparse2.ccp_util import IPv4Obj
     try:
@@ -425,19 +445,21 @@ def _norm_item(w):
     return w
 
 
+def _norm_token(tok):
+    k = 0
+    while k < len(tok) and tok[k] in "LD":
+        k += 1
+    return tok[:k] + _norm_item(tok[k:])
+
+
 def compare(case, impl_ans, model_ans):
     """equal up to the representation of float results: the model answers with the text handed to float(),
     the implementation with a float; both are brought to repr(float(text)) (strings, never floats, are compared)"""
     if "&" not in model_ans or "&" not in impl_ans:
         return impl_ans == model_ans
     res, tree = model_ans.split("&", 1)
-    items = []
-    for r in res.split("|"):
-        if r.startswith("L"):
-            items.append("L" + ",".join(_norm_item(x) for x in r[1:].split(",")) if len(r) > 1 else "L")
-        else:
-            items.append(_norm_item(r))
-    return "|".join(items) + "&" + tree == impl_ans
+    toks = re.split(r"([|,;])", res)
+    return "".join(t if t in "|,;" or t.startswith("err:") else _norm_token(t) for t in toks) + "&" + tree == impl_ans
 
 
 # ------------------------------------------------------------------ oracle (independent of the Lean model)
@@ -536,7 +558,7 @@ def expectation(case, q, texts, parents):
     return ref_conv(q["ty"], s)
 
 
-def oracle(case, ans):
+def _oracle_plain(case, ans):
     if "&" not in ans:
         return [f"parse raised {ans}"]
     res, texts, parents = parse_ans(ans)
@@ -563,7 +585,7 @@ def _indent(l):
     return len(l) - len(l.lstrip())
 
 
-def nontrivial(case):
+def _nontrivial_plain(case):
     pat = re.compile(case["regex"])
     ls = case["lines"]
     if not any(pat.search(l) for l in ls):
@@ -575,13 +597,13 @@ def nontrivial(case):
     return False
 
 
-def describe(case):
+def _describe_plain(case):
     d = {k: case[k] for k in ("syntax", "ignore_blank", "delims", "regex", "compiled", "group", "queries")}
     d["lines"] = case["lines"] if len(case["lines"]) <= 30 else "%d lines (%s)" % (len(case["lines"]), case.get("_origin"))
     return d
 
 
-def buckets(case, ans):
+def _buckets_plain(case, ans):
     out = ["regex:%02d" % REGEXES.index(case["regex"]) if case["regex"] in REGEXES else "regex:fixture",
            "group:%d" % case["group"], "len:%d" % min(20, len(case["lines"]))]
     if "&" not in ans:
@@ -627,4 +649,287 @@ def buckets(case, ans):
                 out.append("group:unset" if pat.search(texts[hit[0]]).group(case["group"]) is None else "group:participated")
         want = expectation(case, q, texts, parents)
         out.append("judged:%d" % (want is not SKIP))
+    return out
+
+
+# ================================================================== outside the property's quantifier
+# (a) the groupdict= path, (b) the search_safe guard on a stale config.  Correspondence only for (a); for (b) the oracle
+# judges committed states like any parsed config and checks that the guard fires on stale ones.
+GD_REGEXES = [
+    r"(?P<key>\w+) (?P<num>\d+)",
+    r"mtu (?P<m>\d+)",
+    r"ip address (?P<addr>\S+)(?: (?P<mask>\S+))?",
+    r"(?:vlan (?P<v>\d+))|(?:mtu (?P<m>\d+))",
+    r"(?P<a>a)?(?P<b>b)?(?P<d>\d)",
+    r"delay (?P<x>\S+)",
+    r"(?P<all>.*)",
+    r"^(?P<w>\S+)$",
+    r"nomatchatall(?P<z>\d)",
+    r"(?P<n>\d*)",
+    r"(mtu|speed) (?P<val>\S+)",
+]
+KEY_TYPES = ["str", "int", "int", "float", "ip", "none"]
+
+
+def gd_row(pat, keys, text):
+    mm = pat.search(text)
+    if mm is None:
+        return "-"
+    out = []
+    for k in keys:
+        if k not in pat.groupindex:
+            out.append("x")
+        else:
+            v = mm.group(k)
+            out.append("u" if v is None else wire.enc_str(v))
+    return "+" + ";".join(out)
+
+
+def mk_gd(syntax, ign, delims, lines, regex, keys, queries, origin="gen"):
+    """keys: list of [name, type]; queries: idx/op(diter|dlist)/recurse/default"""
+    pat = re.compile(regex)
+    case = {"kind": "gd", "syntax": syntax, "factory": False, "ignore_blank": bool(ign), "delims": delims, "lines": list(lines),
+            "regex": regex, "keys": keys, "queries": queries, "_origin": origin}
+    if not all(wire.wire_safe(l) for l in lines):
+        case["req"] = None
+        return case
+    texts = sorted(set(lines))
+    names = [k for k, _ in keys]
+    rows = [gd_row(pat, names, t) for t in texts]
+    ipargs, seen = [], set()
+    if any(t == "ip" for _, t in keys):
+        vals = []
+        for r in rows:
+            if r.startswith("+") and len(r) > 1:
+                vals += [wire.dec_str(x) for x in r[1:].split(";") if x.startswith("s")]
+        for a in [None] + vals + [q["default"] for q in queries]:
+            k = enc_arg(a)
+            if k not in seen:
+                seen.add(k)
+                ipargs.append(a)
+    qs = ["%d:%s:%d:%s" % (q["idx"], q["op"], q["recurse"], enc_arg(q["default"])) for q in queries]
+    ds = T.cfg_delims(syntax, delims)
+    case["req"] = wire.req(
+        "typed", "gd", "1" if syntax == "ios" else "0", wire.enc_str("".join(ds)), "1" if ign else "0",
+        wire.enc_strs(lines), wire.enc_strs(texts), " ".join(rows), " ".join(t for _, t in keys),
+        " ".join(enc_arg(a) for a in ipargs), " ".join(ip_row(a) for a in ipargs), " ".join(qs))
+    return case
+
+
+def rand_gd_case(rng):
+    regex = rng.choice(GD_REGEXES)
+    pat = re.compile(regex)
+    hits, miss = split_vocab(pat)
+    names = list(pat.groupindex)
+    rng.shuffle(names)
+    names = names[: rng.choice([1, 1, 2, 3])]
+    if rng.random() < 0.2:
+        names.insert(rng.randrange(len(names) + 1), "absent")
+    if rng.random() < 0.03:
+        names = []
+    keys = [[k, rng.choice(KEY_TYPES)] for k in names]
+    if rng.random() < 0.6:
+        lines, focus = placed_tree(rng, hits, miss, rng.choice([3, 4, 6, 8, 12]))
+    else:
+        lines, focus = rand_tree(rng, hits, miss, rng.choice([0.15, 0.4, 0.8]), rng.choice([1, 2, 3, 5, 8, 12])), None
+    # defaults: the usual pool, and texts that EQUAL a captured group (`v != default` then skips the conversion)
+    caps = []
+    for l in lines:
+        mm = pat.search(l)
+        if mm:
+            caps += [v for v in mm.groupdict().values() if v is not None]
+    qs = []
+    for k in range(rng.choice([3, 5, 8])):
+        idx = focus if (focus is not None and k < 3) else rng.randrange(max(1, len(lines)))
+        d = rng.choice(caps) if (caps and rng.random() < 0.25) else rng.choice(DEFAULTS)
+        qs.append({"idx": idx, "op": rng.choice(["diter", "diter", "diter", "dlist"]), "recurse": int(rng.random() < 0.5), "default": d})
+    return mk_gd(rng.choice(T.SYNTAXES), rng.random() < 0.2, rng.choice(T.DELIM_SETS), lines, regex, keys, qs)
+
+
+def mk_st(syntax, ign, delims, lines, auto, ins_k, ins_text, commit, regex, group, queries, origin="gen"):
+    from props.editlib import width_of
+    pat = re.compile(regex)
+    case = {"kind": "st", "syntax": syntax, "factory": False, "ignore_blank": bool(ign), "delims": delims, "lines": list(lines),
+            "auto_commit": bool(auto), "ins_k": ins_k, "ins_text": ins_text, "commit": bool(commit),
+            "regex": regex, "compiled": False, "group": group, "queries": queries, "_origin": origin}
+    if not all(wire.wire_safe(l) for l in list(lines) + [ins_text]):
+        case["req"] = None
+        return case
+    texts = sorted(set(list(lines) + [ins_text]))
+    rows = [group_row(pat, group, t) for t in texts]
+    ipargs, seen = [], set()
+    if any(q["ty"] == "ip" for q in queries):
+        for a in [None] + [wire.dec_str(r) for r in rows if r.startswith("s")] + [q["default"] for q in queries if q["ty"] == "ip"]:
+            k = enc_arg(a)
+            if k not in seen:
+                seen.add(k)
+                ipargs.append(a)
+    qs = ["%d:%s:%s:%d:%d:%s" % (q["idx"], q["op"], q["ty"], q["recurse"], q["untyped"], enc_arg(q["default"])) for q in queries]
+    ds = T.cfg_delims(syntax, delims)
+    case["req"] = wire.req(
+        "typed", "st", "1" if syntax == "ios" else "0", wire.enc_str("".join(ds)), "1" if ign else "0",
+        "1" if auto else "0", str(width_of(syntax)), wire.enc_strs(lines), str(ins_k), wire.enc_str(ins_text), "1" if commit else "0",
+        wire.enc_strs(texts), " ".join(rows), " ".join(enc_arg(a) for a in ipargs), " ".join(ip_row(a) for a in ipargs), " ".join(qs))
+    return case
+
+
+def rand_st_case(rng):
+    regex = rng.choice(REGEXES)
+    pat = re.compile(regex)
+    hits, miss = split_vocab(pat)
+    lines = rand_tree(rng, hits, miss, rng.choice([0.15, 0.4, 0.8]), rng.choice([1, 2, 3, 5, 8, 12]))
+    ins_text = " " * rng.choice([0, 0, 1, 2]) + (rng.choice(hits) if hits and rng.random() < 0.6 else rng.choice(VOCAB))
+    if rng.random() < 0.05:
+        ins_text = rng.choice(["", " "])
+    ins_k = rng.choice([0, 0, 1, len(lines), len(lines) + 3, -1, -2, -len(lines) - 2, rng.randrange(len(lines) + 1)])
+    g = rng.choice([x for x in [1, 1, 2, 3, 0] if x <= pat.groups])
+    qs = rand_queries(rng, lines + [ins_text], rng.choice([3, 5, 8]))
+    return mk_st(rng.choice(T.SYNTAXES), rng.random() < 0.2, rng.choice(T.DELIM_SETS), lines, rng.random() < 0.4, ins_k, ins_text,
+                 rng.random() < 0.3, regex, g, qs)
+
+
+def _impl_gd(case):
+    quiet_ccp()
+    from ciscoconfparse2.ccp_util import IPv4Obj
+    try:
+        p = T.parse_impl(case)
+    except BaseException as e:  # noqa: BLE001
+        return "err:" + type(e).__name__
+    tys = {"str": str, "int": int, "float": float, "ip": IPv4Obj, "none": None}
+    td = {k: tys[t] for k, t in case["keys"]}
+    assert len(td) == len(case["keys"])
+    objs = list(p.objs)
+    out = []
+    for q in case["queries"]:
+        if q["idx"] >= len(objs):
+            out.append("oob")
+            continue
+        o = objs[q["idx"]]
+        try:
+            if q["op"] == "diter":
+                v = o.re_match_iter_typed(case["regex"], groupdict=dict(td), default=q["default"], recurse=bool(q["recurse"]))
+                assert list(v.keys()) == list(td.keys())
+                out.append("D" + ",".join(enc_val(x) for x in v.values()))
+            else:
+                v = o.re_list_iter_typed(case["regex"], groupdict=dict(td), recurse=bool(q["recurse"]))
+                out.append("L" + ";".join("D" + ",".join(enc_val(x) for x in d.values()) for d in v))
+        except AssertionError:
+            raise
+        except Exception as e:  # noqa: BLE001
+            out.append("err:" + type(e).__name__)
+    return "|".join(out) + "&" + wire.enc_strs([o.text for o in objs]) + "|" + T.lnums([o.parent for o in objs])
+
+
+def _impl_st(case):
+    quiet_ccp()
+    from ciscoconfparse2.ccp_util import IPv4Obj
+    try:
+        p = T.parse_impl(case)
+        old = list(p.objs)
+        p.config_objs.insert(case["ins_k"], case["ins_text"])
+        if case["commit"]:
+            p.commit()
+    except BaseException as e:  # noqa: BLE001
+        return "err:" + type(e).__name__
+    stale = not p.config_objs.search_safe
+    objs = old if stale else list(p.objs)       # the objects of the last commit
+    tys = {"str": str, "int": int, "float": float, "ip": IPv4Obj}
+    out = []
+    for q in case["queries"]:
+        rt = tys[q["ty"]]
+        kw = dict(group=case["group"], result_type=rt, default=q["default"], untyped_default=bool(q["untyped"]))
+        try:
+            if q["op"] == "root":
+                v = p.re_match_iter_typed(case["regex"], **kw)
+            elif q["idx"] >= len(objs):
+                out.append("oob")
+                continue
+            else:
+                o = objs[q["idx"]]
+                if q["op"] == "match":
+                    v = o.re_match(case["regex"], group=case["group"], default=q["default"])
+                elif q["op"] == "typed":
+                    v = o.re_match_typed(case["regex"], **kw)
+                elif q["op"] == "iter":
+                    v = o.re_match_iter_typed(case["regex"], recurse=bool(q["recurse"]), **kw)
+                else:
+                    v = o.re_list_iter_typed(case["regex"], group=case["group"], result_type=rt, recurse=bool(q["recurse"]))
+            out.append(enc_val(v))
+        except Exception as e:  # noqa: BLE001
+            out.append("err:" + type(e).__name__)
+    pos = {id(o): k for k, o in enumerate(objs)}
+    return ("|".join(out) + "&" + ("1" if stale else "0") + "&" + wire.enc_strs([o.text for o in objs]) + "|"
+            + wire.enc_nats([pos[id(o.parent)] for o in objs]))
+
+
+def impl(case):
+    return {"plain": _impl_plain, "gd": _impl_gd, "st": _impl_st}[case.get("kind", "plain")](case)
+
+
+def _oracle_st(case, ans):
+    if ans.count("&") != 2:
+        return [f"parse/insert raised {ans}"]
+    res_w, stale, tree = ans.split("&")
+    fails = []
+    if stale == "1":
+        # the seatbelt: every object helper of a committed object refuses to answer on a stale config
+        for q, got in zip(case["queries"], res_w.split("|")):
+            if q["op"] != "root" and got not in ("oob", "err:NotImplementedError"):
+                fails.append("%s on a stale config answered %s" % (q["op"], show(got)))
+        return fails[:3]
+    return _oracle_plain(case, res_w + "&" + tree)
+
+
+def oracle(case, ans):
+    kind = case.get("kind", "plain")
+    if kind == "gd":
+        return [] if "&" in ans else [f"parse raised {ans}"]      # outside the property: correspondence only
+    if kind == "st":
+        return _oracle_st(case, ans)
+    return _oracle_plain(case, ans)
+
+
+def nontrivial(case):
+    kind = case.get("kind", "plain")
+    if kind == "plain":
+        return _nontrivial_plain(case)
+    pat = re.compile(case["regex"])
+    return any(pat.search(l) for l in case["lines"]) and any(l[:1] == " " for l in case["lines"])
+
+
+def describe(case):
+    kind = case.get("kind", "plain")
+    if kind == "plain":
+        return _describe_plain(case)
+    keys = ("kind", "syntax", "ignore_blank", "delims", "lines", "regex", "queries") + (
+        ("keys",) if kind == "gd" else ("auto_commit", "ins_k", "ins_text", "commit", "group"))
+    return {k: case[k] for k in keys}
+
+
+def buckets(case, ans):
+    kind = case.get("kind", "plain")
+    if kind == "plain":
+        return ["kind:plain"] + _buckets_plain(case, ans)
+    out = ["kind:" + kind]
+    if "&" not in ans:
+        return out + ["answer:" + ans[:30]]
+    parts = ans.split("&")
+    res = parts[0].split("|")
+    if kind == "st":
+        out.append("st:stale" if parts[1] == "1" else ("st:auto-commit" if case["auto_commit"] else "st:committed" if case["commit"] else "st:?"))
+    for q, got in zip(case["queries"], res):
+        out.append(kind + "-op:" + q["op"] + (":recurse%d" % q["recurse"] if kind == "gd" else ""))
+        out.append(kind + "-result:" + (got if got.startswith("err:") or got == "oob" else got[:1]))
+    if kind == "gd":
+        out.append("gd-keys:%d" % len(case["keys"]))
+        out += ["gd-type:" + t for _, t in case["keys"]]
+        # the recurse=False defect: first child does not match but a later child does
+        texts = wire.dec_strs(parts[1].split("|")[0])
+        parents = [int(x) for x in parts[1].split("|")[1].split(",")] if texts else []
+        pat = re.compile(case["regex"])
+        for q in case["queries"]:
+            if q["op"] == "diter" and not q["recurse"] and q["idx"] < len(texts) and not pat.search(texts[q["idx"]]):
+                kids = [j for j in range(len(texts)) if j != q["idx"] and parents[j] == q["idx"]]
+                if kids and not pat.search(texts[kids[0]]) and any(pat.search(texts[j]) for j in kids[1:]):
+                    out.append("gd-defect:later-child-ignored")
     return out
